@@ -273,6 +273,45 @@ def subtractSearch : α → List α → Nat → Option Nat
     let prob' := prob - p
     if Scalar.ltb prob' (Scalar.ofInt 0) then some i else subtractSearch prob' ps (i + 1)
 
+/-- one state of the chain: `for i < n: prob -= p[i]; if (prob < 0) {state = i; break;}`; `dflt` is
+what the variable holds when the loop finds nothing: `some 0` for the first state (`sta = 0`),
+`none` for the following ones (`stb` is uninitialised: reading it is undefined) -/
+def hmmState (p : List α) (prob : α) (dflt : Option Nat) : R Nat :=
+  match subtractSearch prob p 0 with
+  | some i => .ok i
+  | none => match dflt with
+    | some d => .ok d
+    | none => .error .ub
+
+/-- the states after the first one; `row s` is the transition row of state `s` -/
+def hmmChain (rows : List (List α)) : Nat → Nat → List α → R (List Nat)
+  | _, 0, _ => .ok []
+  | _, _ + 1, [] => .error .starved
+  | sta, k + 1, u :: us =>
+    match rows[sta]? with
+    | none => .error .ub
+    | some row =>
+      match hmmState row u none with
+      | .error e => .error e
+      | .ok stb =>
+        match hmmChain rows stb k us with
+        | .error e => .error e
+        | .ok l => .ok (stb :: l)
+
+/-- `AbstractHmmTransitionMatrix::sample(size)` given the equilibrium frequencies, the transition
+matrix and the uniform draws -/
+def hmmSample (eq : List α) (rows : List (List α)) (size : Nat) (draws : List α) : R (List Nat) :=
+  match size, draws with
+  | 0, _ => .ok []
+  | _ + 1, [] => .error .starved
+  | k + 1, u :: us =>
+    match hmmState eq u (some 0) with
+    | .error e => .error e
+    | .ok sta =>
+      match hmmChain rows sta k us with
+      | .error e => .error e
+      | .ok l => .ok (sta :: l)
+
 end Weighted
 
 /-! ## random contingency tables: the integer book-keeping of `rcont2` (AS159)
